@@ -28,7 +28,8 @@ def family():
     add("d[gkx]", lambda: d(("g", "k", "x")))
     add("d2", lambda: d(name="d2"))
     for ex in ("x + 1", "x + 1.0", "x + True", "x + 2", "x - 1", "1 + x", "x * y", "x.maximum(y)", "x.minimum(y)", "(x > 1).if_else(x, y)", "(x > 1).if_else(y, x)",
-               "x.is_null()", "x.coalesce(0)", "x.coalesce(1)", "x.is_in([1, 2])", "x.is_in([2, 1])", "x.is_in([1.0, 2])", "x.mapv({1: 2}, 0)", "x.mapv({1: 3}, 0)", "'a'", "'b'", "1", "True", "1.0"):
+               "x.is_null()", "x.coalesce(0)", "x.coalesce(1)", "x.is_in([1, 2])", "x.is_in([2, 1])", "x.is_in([1.0, 2])", "x.is_in([1])", "x.is_in([1, 2, 3])", "x.is_in([1, 2, 2])", "x.mapv({1: 2, 2: 3}, 0)", "x.mapv({1: 2}, 1)", "x.mapv({2: 2}, 0)",
+               "x.round()", "x.floor()", "x + y", "y + x", "x + y + 1", "(x + y) * 2", "x + y * 2", "-x", "x.sign()", "g.is_in(['a'])", "g.is_in(['a', 'b'])", "g.is_in(['b', 'a'])", "g == 'a'", "g == 'b'", "x.mapv({1: 2}, 0)", "x.mapv({1: 3}, 0)", "'a'", "'b'", "1", "True", "1.0"):
         add("extend n=%s" % ex, lambda ex=ex: d().extend({"n": ex}))
     add("extend a,b", lambda: d().extend({"a": "x + 1", "b": "y + 1"}))
     add("extend b,a", lambda: d().extend({"b": "y + 1", "a": "x + 1"}))
